@@ -351,4 +351,54 @@ example : runPilot N (.nf 0) [.nf 2, .nf 1, .nf 2, .done, .nf 3, .failed]
     = (.done, [.nf 1, .nf 2, .nf 2, .nf 3, .nf 4, .done]) := by decide
 example : run .none [.cancelCmd false, .lifetimeExpired, .terminateCmd] = .timeout := by decide
 
+/-! ## the task manager scheduler's view: messages carrying several notifications -/
+
+/-- the task manager scheduler's view of one pilot: `_update_pilot_states` applies `_pilot_state_progress`
+    to every notification of a message, in order (a refused contradictory final leaves the state) -/
+def track (cur : St) (seq : List St) : St :=
+  seq.foldl (fun c t => match pilotProgress N c t with | .ok (t', _) => t' | .error _ => c) cur
+
+theorem progress_val (c t : St) (hc : c.WF N) (ht : t.WF N) :
+    ∀ r, (match pilotProgress N c t with | .ok (t', _) => t' | .error _ => c) = r →
+      r.WF N ∧ c.val N ≤ r.val N ∧ t.val N ≤ r.val N := by
+  intro r hr
+  unfold pilotProgress at hr
+  have hcv := val_le hc
+  have htv := val_le ht
+  by_cases h1 : c = .canceled ∧ t.isFinal = true
+  · rw [if_pos h1] at hr; simp only at hr; subst hr
+    exact ⟨ht, by rw [val_final h1.2]; exact hcv, Nat.le_refl _⟩
+  rw [if_neg h1] at hr
+  by_cases h2 : c = .failed ∧ t.isFinal = true
+  · rw [if_pos h2] at hr; simp only at hr; subst hr
+    exact ⟨ht, by rw [val_final h2.2]; exact hcv, Nat.le_refl _⟩
+  rw [if_neg h2] at hr
+  by_cases h3 : c.isFinal = true ∧ t ≠ c ∧ t.isFinal = true
+  · rw [if_pos h3] at hr; simp only at hr; subst hr
+    exact ⟨hc, Nat.le_refl _, by rw [val_final h3.1]; exact htv⟩
+  rw [if_neg h3] at hr
+  by_cases h4 : c.val N ≥ t.val N
+  · rw [if_pos h4] at hr; simp only at hr; subst hr
+    exact ⟨hc, Nat.le_refl _, h4⟩
+  · rw [if_neg h4] at hr; simp only at hr; subst hr
+    exact ⟨ht, by omega, Nat.le_refl _⟩
+
+/-- **no notification of a message is lost**: after a message with any number of notifications for a pilot,
+    in any order, the tracked state has at least the value of every one of them (and of the state before) -/
+theorem C14_tracked_covers (cur : St) (seq : List St) (hc : cur.WF N) (hs : ∀ t ∈ seq, t.WF N) :
+    (track cur seq).WF N ∧ cur.val N ≤ (track cur seq).val N ∧ ∀ t ∈ seq, t.val N ≤ (track cur seq).val N := by
+  induction seq generalizing cur with
+  | nil => exact ⟨hc, Nat.le_refl _, by simp⟩
+  | cons t rest ih =>
+    have ht := hs t (by simp)
+    obtain ⟨w1, w2, w3⟩ := progress_val cur t hc ht _ rfl
+    have : track cur (t :: rest) = track (match pilotProgress N cur t with | .ok (t', _) => t' | .error _ => cur) rest := rfl
+    rw [this]
+    obtain ⟨i1, i2, i3⟩ := ih _ w1 (fun x hx => hs x (by simp [hx]))
+    refine ⟨i1, Nat.le_trans w2 i2, ?_⟩
+    intro x hx
+    rcases List.mem_cons.mp hx with rfl | hx
+    · exact Nat.le_trans w3 i2
+    · exact i3 x hx
+
 end RPVerif.C14
